@@ -55,24 +55,29 @@ let () =
                 Buffer.add_string buf (Printf.sprintf "%d@%d " (int_of_z cnt) start)
             | _ -> ()) ops;
           print_endline (String.trim (Buffer.contents buf))
-      | "B" :: size :: script :: ops ->
-          (* bzip2 window: script "d:n:e,..." (e = 0 BZ_OK, 1 BZ_STREAM_END, E error) = the recorded
-             answers of BZ2_bzRead by decoder position; ops S<k> seek, R<k> read, Z size; one handle *)
+      | "B" :: size :: ops ->
+          (* bzip2 window: ops "S<k>@<script>" seek, "R<k>@<script>" read, "Z@<script>" size; one handle.
+             <script> = "d:n:e,..." (e = 0 BZ_OK, 1 BZ_STREAM_END, E error): the answers BZ2_bzRead gave DURING
+             THAT CALL, by decoder position (within one call every position is asked at most once) *)
           let zi x = z_of_int (int_of_string x) in
           let size = zi size in
-          let tbl = List.filter_map (fun e ->
+          let parse script = List.filter_map (fun e ->
             match String.split_on_char ':' e with
             | [d; n; "E"] -> Some (zi d, None)
             | [d; n; f] -> Some (zi d, Some (zi n, f = "1"))
             | _ -> None) (String.split_on_char ',' script) in
-          let orc = bz_script_orc tbl in
-          let fuel = nat_of_int (List.length tbl + 4) in
           let st = ref bfresh in
           let sts x = match x with BzDone -> "D" | BzErr -> "E" | BzFuel -> "F" in
           let show s = Printf.sprintf "%d %d %d %d %d" (int_of_z s.bbase) (int_of_z s.bpos) (int_of_z s.bend)
                          (if s.bsend then 1 else 0) (int_of_z s.bfpos) in
           let buf = Buffer.create 256 in
-          List.iter (fun op ->
+          List.iter (fun opx ->
+            let (op, script) = match String.index_opt opx '@' with
+              | Some i -> (String.sub opx 0 i, String.sub opx (i + 1) (String.length opx - i - 1))
+              | None -> (opx, "") in
+            let tbl = parse script in
+            let orc = bz_script_orc tbl in
+            let fuel = nat_of_int (List.length tbl + 4) in
             let k = String.sub op 1 (String.length op - 1) in
             match op.[0] with
             | 'S' ->
